@@ -406,6 +406,15 @@ class Exec:
                 pass
         return out
 
+    def ensure_global(self, name):
+        """namespace-scope mutable state named by a contract (created before the pre-state snapshot)"""
+        root = 'glob_' + name
+        if root not in self.store:
+            self.store[root] = z3.Int('global.' + name)
+            self.global_roots[root] = self.store[root]
+        self.names[name] = Path(root)
+        return Path(root)
+
     # ------------------------------------------------------------------ ghost state
     def ghost_trigger(self, method, path, args):
         c = self.cur_contract
@@ -700,6 +709,12 @@ class Exec:
         if name in self.globals_model:
             self.store[rid] = self.globals_model[name](self)
             return Path(rid)
+        t = (d or {}).get('type', {}).get('qualType', '') if d is not None else r.get('type', {}).get('qualType', '')
+        if 'mt19937' in t or 'mersenne_twister' in t:
+            # random engine: an abstract state (the library's only mutable namespace-scope variable, thread_local)
+            gp = self.ensure_global(name)
+            self.store[rid] = RefVal(gp)
+            return gp
         raise Unsupported('global variable %s' % name)
 
     def ev_DeclRefExpr(self, n):
@@ -916,6 +931,7 @@ class Exec:
     ev_CXXStaticCastExpr = ev_cast
     ev_CXXFunctionalCastExpr = ev_cast
     ev_CXXConstCastExpr = ev_cast
+    ev_CXXReinterpretCastExpr = ev_cast
 
     def lv_cast(self, n):
         ck = n.get('castKind')
@@ -1328,11 +1344,22 @@ class Exec:
             if isinstance(v, RefVal):
                 v = self.read(v.path)
             v = self.coerce(v, sh)
+            if sh[0] == 'vec' and len(sh) == 3 and isinstance(v, VecVal):
+                ln = z3.simplify(v.len)
+                if z3.is_int_value(ln) and ln.as_long() < sh[2]:
+                    # array filler: the remaining elements are value-/default-initialised
+                    data = v.data
+                    for k in range(ln.as_long(), sh[2]):
+                        data = store(data, z3.IntVal(k), default_value(sh[1]))
+                    v = VecVal(z3.IntVal(sh[2]), data, sh[1])
         else:
             if sh[0] in ('int', 'real', 'bool'):
                 v = fresh(sh, self.fresh_name('uninit_' + d.get('name', '')))
             elif sh[0] == 'ptr':
                 v = PtrVal(None, z3.IntVal(0))
+            elif sh[0] == 'vec' and len(sh) == 3:
+                # local array T x[N]: N uninitialised elements
+                v = VecVal(z3.IntVal(sh[2]), fresh(sh[1], self.fresh_name('uninit_' + d.get('name', '')), 1), sh[1])
             else:
                 v = self.calls.default_construct(self, sh, d)
         self.store[d['id']] = v
